@@ -68,6 +68,8 @@ type Member struct {
 	Body     []Stmt   `json:"body"`
 	SameLine bool     `json:"sameLine"` // starts on the line the previous member ends on
 	Throws   []string `json:"throws"`
+	// OneLine: the whole member (header, body, closing brace) is written on one line; the line facts of call sites inside it are NOT valid
+	OneLine bool `json:"oneLine"`
 }
 
 type Unit struct {
@@ -579,6 +581,8 @@ func Render(f File, layout int) (string, Facts) {
 				mf.EndLine = w.line - 1
 			} else {
 				w.s(" {\n")
+				bodyStart := w.b.Len() - 1
+				startLine := w.line - 1
 				rd.sc.locals = nil
 				rd.block(m.Body, ind*2)
 				// a statement may have left the line open
@@ -586,6 +590,14 @@ func Render(f File, layout int) (string, Facts) {
 					w.s("\n")
 				}
 				w.s(pad + "}\n")
+				if m.OneLine {
+					all := w.b.String()
+					body := strings.Join(strings.Fields(all[bodyStart:]), " ")
+					w.b.Reset()
+					w.b.WriteString(all[:bodyStart] + " " + body + "\n")
+					w.line = startLine + 1
+					w.colR, w.colB = 0, 0
+				}
 				mf.EndLine = w.line - 1
 			}
 			rd.sc.params = map[string]string{}
